@@ -127,3 +127,53 @@ def run_cli(args, cwd=None):
 	except Exception:
 		err = ''
 	return res.exit_code, getattr(res, "stdout", res.output), exc, err
+
+
+# ------------------------------------------------------------------------------------------------ hidden module-level state
+
+_GLOBALS_SNAPSHOT = None
+
+
+def _gambit_globals():
+	import sys
+	import types
+	for name, mod in list(sys.modules.items()):
+		if not (name == 'gambit' or name.startswith('gambit.')) or mod is None:
+			continue
+		for attr, val in list(vars(mod).items()):
+			if attr.startswith('__'):
+				continue
+			if isinstance(val, (dict, list, set)) and not isinstance(val, types.ModuleType):
+				yield name, attr, val
+			elif hasattr(val, 'cache_clear') and callable(getattr(val, 'cache_clear', None)):
+				yield name, attr, val
+
+
+def reset_gambit_globals():
+	"""Histories replayed 'on fresh objects' inside one interpreter still share gambit's module-level mutable state (caches, registries).
+	The first call snapshots every module-level dict / list / set of the gambit package; later calls restore their contents in place and
+	clear functools caches, so that every history starts from the state of a freshly imported library."""
+	global _GLOBALS_SNAPSHOT
+	import copy
+	if _GLOBALS_SNAPSHOT is None:
+		_GLOBALS_SNAPSHOT = {}
+		for mod, attr, val in _gambit_globals():
+			if not hasattr(val, 'cache_clear'):
+				_GLOBALS_SNAPSHOT[(mod, attr)] = copy.copy(val)
+		return
+	for mod, attr, val in _gambit_globals():
+		if hasattr(val, 'cache_clear'):
+			val.cache_clear()
+			continue
+		snap = _GLOBALS_SNAPSHOT.get((mod, attr))
+		if snap is None:
+			snap = type(val)()          # a container that did not exist at snapshot time starts empty
+		if isinstance(val, dict):
+			if val != snap or list(val) != list(snap):
+				val.clear(); val.update(snap)
+		elif isinstance(val, list):
+			if val != snap:
+				val[:] = snap
+		else:
+			if val != snap:
+				val.clear(); val.update(snap)
